@@ -7,7 +7,7 @@ Property: for every statement the SQL parser accepts (including OctoSQL's extens
 function arguments, DESCRIPTOR, TABLE(), LOOKUP JOIN, object field access and `->*`), printing the parsed statement
 and parsing the printed text again yields the same syntax tree.
 
-Model (all in `Octo.Sql`):
+Model (all in `Octo.SqlSyn`):
 * `printS : Sel → List Tok` — `sqlparser.String` at token level.  Every node is printed by interpreting the `Format`
   template that the translator extracted from the **current** `ast.go` (`Octo/Gen/SqlFormat.lean`);
 * `parseStmt : List Tok → Option Sel` — a hand-written precedence-climbing parser for the fragment, tied to the
@@ -18,7 +18,7 @@ All theorems are about token sequences (the tokenizer is outside the model) and 
 nesting depth.
 -/
 namespace Octo.C30
-open Octo.Sql
+open Octo.SqlSyn
 
 /-- the trees the parser can build: a select statement, well formed and precedence respecting (`okS`) -/
 def FromParser (t : Sel) : Prop := okS t = true ∧ t.isStmt = true
@@ -28,7 +28,7 @@ instance (t : Sel) : Decidable (FromParser t) := by unfold FromParser; exact inf
 /-- round trip with explicit nesting fuel: any fuel above the nesting depth of the tree will do -/
 theorem roundtrip_fuel (t : Sel) (h : FromParser t) (n : Nat) (hn : depthS t < n) :
     parseStmtFuel n (printS t) = some t :=
-  Octo.Sql.roundtrip_fuel t h.1 h.2 n hn
+  Octo.SqlSyn.roundtrip_fuel t h.1 h.2 n hn
 
 /-- the nesting depth of a tree never exceeds the number of tokens it prints to (so `parseStmt`'s fuel suffices) -/
 theorem depth_le_tokens (t : Sel) : depthS t ≤ (printS t).length := depthS_le_len t
